@@ -90,10 +90,14 @@ reg("C11",
     level_note="Trusted: the declarative oracle (about 80 lines); http::HeaderValue for carrying the header text. Where the statement is silent (no parsable range, malformed q, equal specificity with different q) both readings are accepted and counted separately.")
 
 reg("C07",
-    packages=["httpdirect"], bin="httpdirect", level="exploration", engine="E3a httpdirect",
+    packages=["httpdirect", "httploop"], level="exploration", engine="E3a httpdirect + E3b httploop",
+    parts=[
+        {"packages": ["httpdirect"], "bin": "httpdirect"},
+        {"packages": ["httploop"], "bin": "httploop"},
+    ],
     technique="bounded exhaustive enumeration of parameter values x positions x templates through the real URI builder and server-side decoders, judged by an independent RFC 3986 tokenizer/decoder",
     design_ref="DESIGN.md §3 C07",
-    explanation="every ASCII code point, UTF-8 boundary, look-alike string and reserved-character pair in every parameter position (and pairs of positions) of 7 path/query templates, plus URI lengths around the 65534 limit; each built URI is re-parsed, tokenized by a hand-written RFC 3986 model and decoded by path_param / parse_query_params / query_param; macro-client templates with literals and query keys of every encode-set level; every sequence of up to three optional / list / set query pushes; a 42-pair query",
+    explanation="every ASCII code point, UTF-8 boundary, look-alike string and reserved-character pair in every parameter position (and pairs of positions) of 7 path/query templates, plus URI lengths around the 65534 limit; each built URI is re-parsed, tokenized by a hand-written RFC 3986 model and decoded by path_param / parse_query_params / query_param; macro-client templates with literals and query keys of every encode-set level; every sequence of up to three optional / list / set query pushes; a 42-pair query; part 1: the URIs of the generated blocking / async clients (path arguments declared out of template order, list / set / optional query arguments) against the IR templates, and a macro client / macro server pair whose query names hold reserved characters",
     level_text="Exhaustive exploration over per-character alphabets in every position: URI structure preservation is a per-byte property of the encode set, so every ASCII byte in every position plus all pairs over the reserved alphabet decides it within the bound.",
     level_note="Trusted: the hand-written tokenizer/decoder; http::Uri for re-parsing. The macro client's own copy of the encode set (literals and query keys at expansion time) is covered by the loopback part when built.")
 
